@@ -118,6 +118,17 @@ theorem c14_produce_callable (P : Prims) (E : Env) (K : KeyEnv) (ks : List Key) 
   rw [c14_callable_transparent, hf] at h
   exact c14_produce P E K ks headers alg k kid hnokid halg h
 
+/-- A SINGLE key (given directly or through a callable) is used as it is and records no kid: the header that is signed or
+encrypted is the caller's, whether or not the key object carries a kid of its own - a kid is written only for a key picked
+from a set. -/
+theorem c14_single_key_records_no_kid (P : Prims) (E : Env) (K : KeyEnv) (k : Key) (headers : JVal) (useRandom : Bool)
+    (f : JVal → KeyBase) (hf : f headers = .key k) :
+    guessKey P E K (.base (.key k)) headers useRandom = .ok (k, none) ∧
+    guessKey P E K (.callable f) headers useRandom = .ok (k, none) ∧
+    ∀ prot, applyKid prot none = .ok prot := by
+  refine ⟨rfl, ?_, fun _ => rfl⟩
+  rw [c14_callable_transparent, hf]; rfl
+
 /-- The candidates handed to `random.choice` all have a key type the algorithm requires. -/
 theorem c14_candidates_typed (algKeys : List (String × List String)) (ks : List Key) (alg : String) (kts : List String)
     (hfind : algKeys.find? (·.1 == alg) = some (alg, kts)) (hne : kts ≠ []) :
